@@ -599,13 +599,9 @@ pub async fn write_all<S>(stream: &mut S, buf: BytesMut) -> Result<(), Error>
 where
     S: tokio::io::AsyncWrite + std::marker::Unpin,
 {
-    match stream.write_all(&buf).await {
-        Ok(_) => Ok(()),
-        Err(err) => Err(Error::SocketError(format!(
-            "Error writing to socket - Error: {:?}",
-            err
-        ))),
-    }
+    // On a TLS stream a write may leave the last records buffered when the socket is
+    // momentarily not writable: without a flush the client would never see them.
+    write_all_flush(stream, &buf).await
 }
 
 /// Write all the data in the buffer to the TcpStream, write owned half (see mpsc).
@@ -613,13 +609,7 @@ pub async fn write_all_half<S>(stream: &mut S, buf: &BytesMut) -> Result<(), Err
 where
     S: tokio::io::AsyncWrite + std::marker::Unpin,
 {
-    match stream.write_all(buf).await {
-        Ok(_) => Ok(()),
-        Err(err) => Err(Error::SocketError(format!(
-            "Error writing to socket - Error: {:?}",
-            err
-        ))),
-    }
+    write_all_flush(stream, buf).await
 }
 
 pub async fn write_all_flush<S>(stream: &mut S, buf: &[u8]) -> Result<(), Error>
